@@ -384,8 +384,19 @@ pub fn catch<R>(f: impl FnOnce() -> R + std::panic::UnwindSafe) -> Result<R, Str
   }
 }
 
-thread_local! {
-  static LAST_PANIC: std::cell::RefCell<Option<String>> = const { std::cell::RefCell::new(None) };
+/// process-wide (panics may happen on rayon worker threads, not on the catching thread)
+static LAST_PANIC_GLOBAL: std::sync::Mutex<Option<String>> = std::sync::Mutex::new(None);
+
+struct LastPanic;
+static LAST_PANIC: LastPanic = LastPanic;
+impl LastPanic {
+  fn with<R>(&self, f: impl FnOnce(&std::cell::RefCell<Option<String>>) -> R) -> R {
+    let mut g = LAST_PANIC_GLOBAL.lock().unwrap_or_else(|e| e.into_inner());
+    let cell = std::cell::RefCell::new(g.take());
+    let r = f(&cell);
+    *g = cell.into_inner();
+    r
+  }
 }
 
 pub fn install_hook() {
@@ -393,6 +404,9 @@ pub fn install_hook() {
   ONCE.call_once(|| {
     std::panic::set_hook(Box::new(|info| {
       let loc = info.location().map(|l| format!("{}:{}", l.file(), l.line())).unwrap_or_default();
+      if std::env::var("VERIF_BACKTRACE").is_ok() {
+        eprintln!("panic at {loc}\n{}", std::backtrace::Backtrace::force_capture());
+      }
       LAST_PANIC.with(|l| *l.borrow_mut() = Some(loc));
     }));
   });
